@@ -88,6 +88,23 @@ def float_run(p, e, k, rows):
     return pyh.gate_guard(go)
 
 
+def float_run_second(p, e, rows):
+    """Real adapter: transform(X) then transform(Xb) on the same object; by-hand NIS for Xb."""
+
+    def go():
+        with quiet():
+            pn, sn = pyh.noise_vals_from_env(p, e)
+            ad = make_adapter(p, pyh.float_calibration_map(p, e), {c: float(pn[c]) for c in p.control}, {key: {r: float(sn[key][r]) for r in p.sensors[key]} for key in p.sensors}, None)
+            Xa = np.array([[float(e.get(f"X_{r}_{j}", 0.25)) for j in range(width(p))] for r in range(rows)])
+            Xb = np.array([[float(e.get(f"Xb_{r}_{j}", -0.5)) for j in range(width(p))] for r in range(rows)])
+            ad.transform(Xa)
+            trb = np.array(ad.transform(Xb), dtype=float)
+            hand, _ = by_hand(ad.export_python(), p, [list(r) for r in Xb], DT)
+            return {"transform_b": trb, "hand_b": np.array(hand, dtype=float)}
+
+    return pyh.gate_guard(go)
+
+
 def float_score_spec(nis, p, e):
     pn, sn = pyh.noise_vals_from_env(p, e)
     flat = np.array(nis, dtype=float).reshape(-1)
@@ -105,6 +122,7 @@ def task(p, k, rows, tier, seed):
     pn, sn = pyh.noise_env(p)
     W = width(p)
     Xv = [[z3.Real(f"X_{r}_{j}") for j in range(W)] for r in range(rows)]
+    Xv2 = [[z3.Real(f"Xb_{r}_{j}") for j in range(W)] for r in range(rows)]
     _, _, _, _, a0 = __import__("checks.c02", fromlist=["spec_pieces"]).spec_pieces(p, env)
     assumes = pyh.noise_positive(pn, sn)
     tmo = tier_timeout_ms(tier)
@@ -124,6 +142,14 @@ def task(p, k, rows, tier, seed):
                 for j in range(W):
                     e[f"X_{r}_{j}"] = rng.randint(-12, 12) / 8.0
             out.append(e)
+        return out
+
+    def seeded_envs_b(rng, cnt):
+        out = seeded_envs(rng, cnt)
+        for e in out:
+            for r in range(rows):
+                for j in range(W):
+                    e[f"Xb_{r}_{j}"] = rng.randint(-12, 12) / 8.0
         return out
 
     # concrete behaviour of the real code on valid data
@@ -161,7 +187,16 @@ def task(p, k, rows, tier, seed):
             params1 = dict(ad.get_params())
             ekf = ad.export_python()
             hand, trace = by_hand(ekf, p, [[SymReal(v) for v in row] for row in Xv], DT)
-            return tr, tr2, mh, sc, params0, params1, snap0, hand, trace
+            trb = handb = None
+            if k is None:
+                # history dimension: the same estimator object transforms a second, independent data matrix
+                Xb = np.empty((rows, W), dtype=object)
+                for r in range(rows):
+                    for j in range(W):
+                        Xb[r, j] = SymReal(Xv2[r][j])
+                trb = ad.transform(Xb)
+                handb, _ = by_hand(ad.export_python(), p, [[SymReal(v) for v in row] for row in Xv2], DT)
+            return tr, tr2, mh, sc, params0, params1, snap0, hand, trace, trb, handb
 
     cfg = {"gate": "assume", "inverse": "closed", "any_gate": "assume-false", "prune": False, "assume_false_sites": [("transform", "< 0.0"), ("mahalanobis", "< 0.0")]}
     ass = assumes + ([z3.Real("k") > 0] if k == "sym" else [])
@@ -173,7 +208,7 @@ def task(p, k, rows, tier, seed):
         return part.d
     nsens = len(p.sensors)
     for li, l in enumerate(leaves):
-        tr, tr2, mh, sc, params0, params1, snap0, hand, trace = l.value
+        tr, tr2, mh, sc, params0, params1, snap0, hand, trace, trb, handb = l.value
         pa = l.assumes + l.pc
         if solve(pa, 5000).status == "unsat":
             continue
@@ -205,6 +240,17 @@ def task(p, k, rows, tier, seed):
                 prove_equal(part, PID, f"{tag}: transform[{r},{key}] == by-hand NIS", lift(tr[r, s_]), lift(hand[r][s_]), pa, tmo, replay=mk_replay("transform", idx), key=f"{key_base}/transform[{r},{key}]", info=info, all_vars=allv, seeded_envs=seeded_envs)
                 prove_equal(part, PID, f"{tag}: repeated transform[{r},{key}] identical", lift(tr2[r, s_]), lift(tr[r, s_]), pa, tmo, key=f"{key_base}/repeat")
                 prove_equal(part, PID, f"{tag}: mahalanobis[{idx}] == transform flattened", lift(mh.reshape(-1)[idx]), lift(tr[r, s_]), pa, tmo, replay=mk_replay("mahalanobis", idx), key=f"{key_base}/mahalanobis[{idx}]", info=info, all_vars=allv, seeded_envs=seeded_envs)
+        if trb is not None:
+            for r in range(rows):
+                for s_, key in enumerate(p.s_sensors()):
+
+                    def replay_b(e, r=r, s_=s_):
+                        got = float_run_second(p, e, rows)
+                        return {"impl": float(got["transform_b"][r, s_]), "spec": float(got["hand_b"][r, s_])}
+
+                    allb = dict(allv)
+                    allb.update({f"Xb_{r2}_{j}": Xv2[r2][j] for r2 in range(rows) for j in range(W)})
+                    prove_equal(part, PID, f"{tag}: second data matrix on the same estimator: transform[{r},{key}] == by-hand NIS", lift(trb[r, s_]), lift(handb[r][s_]), pa, tmo, replay=replay_b, key=f"{key_base}/second-matrix[{r},{key}]", info=dict(info, second=True), all_vars=allb, seeded_envs=seeded_envs_b)
         # score == documented combination of the NIS values (uf_sqrt)
         nis = [lift(v) for v in flat_hand]
         sq = [uf("sqrt")(v) for v in nis]
@@ -311,6 +357,12 @@ def replay(path):
     ps = {p.id: p for p, _, _ in configs("thorough", 0)}
     p = ps[info["program"]]
     k = info["k"] if info["k"] != "sym" else 3.0
+    if info.get("second"):
+        got = float_run_second(p, r["inputs"], info["rows"])
+        bad = not np.allclose(got["transform_b"], got["hand_b"], rtol=1e-7, atol=1e-10)
+        print(got)
+        print("REPRODUCED" if bad else "not reproduced")
+        return 1 if bad else 0
     try:
         got = float_run(p, r["inputs"], k, info["rows"])
     except pyh.GateRejected as ex:
